@@ -29,9 +29,11 @@ def col(dm, name=None):
 
 
 def PROOFS():
-    from ..contracts import transforms_c
+    from ..contracts import transforms_c, scanner_c   # noqa: F401
     T = "formulae.transforms."
-    return [("vf.contracts.transforms_c", [T + "binary", T + "Proportion.__init__", T + "Proportion.eval"])]
+    return [("vf.contracts.transforms_c", [T + "binary", T + "Proportion.__init__", T + "Proportion.eval"]),
+            # the success value / the constant trials / the constant offset the helpers receive is Python's reading of the literal's text
+            ("vf.contracts.scanner_c", ["formulae.scanner.Scanner." + f for f in ("number", "floatnum", "char", "add_token")])]
 
 
 def run(report, findings):
@@ -140,6 +142,17 @@ def run(report, findings):
                 except Exception as ex:
                     err = f"raised {type(ex).__name__}: {ex}"
                 add(f, err)
+            # successes stored in a narrow integer type: the trials are reported as written, whatever dtype holds the successes
+            d8 = d.copy()
+            d8["k8"] = d8["k"].astype(np.int8)
+            d8["big"] = d8["trials"] + 290
+            for trials, want in (("300", np.full(len(d8), 300.0)), ("big", d8["big"].values.astype(float)), ("70000", np.full(len(d8), 70000.0))):
+                f = f"{alias}(k8, {trials}) ~ x"
+                try:
+                    R = np.asarray(design_matrices(f, d8).response.design_matrix, dtype=float)
+                    add(f + " (int8 successes)", None if np.array_equal(R, np.column_stack([d8["k"].values.astype(float), want])) else "response is not [successes, trials]")
+                except Exception as ex:
+                    add(f + " (int8 successes)", f"raised {type(ex).__name__}: {ex}")
             # a trials column that happens to be constant in training is still a column: the new frame's values are reported
             dc = d.copy()
             dc["trials"] = 12
